@@ -4,6 +4,7 @@ CONSTANTS
   MaxEdges = 14
   FailKinds = {"err"}
   AllowDangling = TRUE
+  MaxMark = 0
   MaxRerun = 0
   Runs = 2
   RBug = "none"
